@@ -32,6 +32,11 @@ def schedules(tier, rng, op):
     # the factory must never see UTC / fixed-offset names (and must see malformed look-alikes)
     for n in FIXED_NAMES:
         out.append("%s S0:%s R0 S1:%s R1 S0:%s R0" % (op, n, n, n))
+    # names that differ only behind an embedded NUL ("%00" in a token) or in a trailing NUL are different names:
+    # each is loaded (factory asked) once, and repeat loads hit the cache
+    for a, b in (("V:A", "V:A%00v2"), ("V:A%00v2", "V:A"), ("V:A%00", "V:A%00"), ("V:B%00x", "V:B%00y"), ("V:X%00", "V:X"), ("V:nosuch%00q", "V:nosuch%00q")):
+        out.append("%s S0:%s R0 S0:%s R0 S1:%s R1 S0:%s R0 S1:%s R1" % (op, a, b, a, b, a))
+        out.append("%s S0:%s S1:%s R0 R1 S0:%s R0 S1:%s R1" % (op, a, b, a, b))
     ks = [1, 2, 3] if tier == "quick" else [1, 2, 3, 4]
     for k in ks:
         ords = list(orders(k))
